@@ -201,14 +201,17 @@ func readUserDefinedColForRRCs(segKey string, rrcs []*sutils.RecordResultContain
 
 	// todo we should not be reading blockSummary here, let the segreader read it
 	var blockSummary []*structs.BlockSummary
-	if writer.IsSegKeyUnrotated(segKey) {
-
+	isUnrotated := writer.IsSegKeyUnrotated(segKey)
+	if isUnrotated {
 		blockSummary, err = writer.GetBlockSummaryForKey(segKey)
 		if err != nil {
-			log.Error(ErrGetBlockSummary)
-			return nil, err
+			// The segment got rotated between the check above and this lookup. Rotation
+			// publishes the rotated metadata before it drops the unrotated info, so the
+			// block summaries can be taken from the rotated segment instead.
+			isUnrotated = false
 		}
-	} else {
+	}
+	if !isUnrotated {
 		_, blockSummary, err = segmetadata.GetSearchInfoAndSummary(segKey)
 		if err != nil {
 			log.Error(ErrGetBlockSearchInfo)
